@@ -80,6 +80,11 @@ func checkC11(c c11Case) string {
 	if m := b.metaDiff(); m != "" {
 		return m
 	}
+	if sampledForInterference(c.Cues) {
+		if m := interference(b.sub); m != "" {
+			return m
+		}
+	}
 	got := b.sub.Items
 	ctx := func() string { return fmt.Sprintf("in: %s out: %s", fmtSpecs(c.Cues), fmtItems(got)) }
 	want := specUnfragment(c.Cues)
@@ -124,6 +129,30 @@ func checkC11(c c11Case) string {
 		for _, t := range []int64{cu.S, cu.E, cu.S - 1, cu.E - 1} {
 			if a, bb := onScreen(c.Cues, t), onScreen(after, t); a != bb {
 				return fmt.Sprintf("texts on screen at t=%d changed from %s to %s; %s", t, a, bb, ctx())
+			}
+		}
+	}
+	// the caller then adds cues to the list it owns (public field) and unfragments again
+	if len(c.Cues) > 0 && len(got) > 0 {
+		first := c.Cues[0]
+		extra := []cueSpec{{S: 0, E: first.E + nsMs, T: first.T}, {S: first.S, E: first.S, T: "b"}}
+		var list2 []cueSpec
+		for _, it := range got {
+			list2 = append(list2, cueSpec{S: int64(it.StartAt), E: int64(it.EndAt), T: itemText(it)})
+		}
+		list2 = append(list2, extra...)
+		for _, e := range extra {
+			b.sub.Items = append(b.sub.Items, &astisub.Item{StartAt: time.Duration(e.S), EndAt: time.Duration(e.E), Lines: textLines(e.T)})
+		}
+		b.sub.Unfragment()
+		want2 := specUnfragment(list2)
+		if len(b.sub.Items) != len(want2) {
+			return fmt.Sprintf("second Unfragment, after the caller appended two cues: %d cues, specification says %d; list before the call: %s out: %s", len(b.sub.Items), len(want2), fmtSpecs(list2), fmtItems(b.sub.Items))
+		}
+		for k, w := range want2 {
+			it := b.sub.Items[k]
+			if int64(it.StartAt) != w.s || int64(it.EndAt) != w.e || itemText(it) != textKey(list2[w.first].T) {
+				return fmt.Sprintf("second Unfragment, after the caller appended two cues: position %d is [%d,%d)%q, specification says [%d,%d)%q; list before the call: %s", k, int64(it.StartAt), int64(it.EndAt), itemText(it), w.s, w.e, textKey(list2[w.first].T), fmtSpecs(list2))
 			}
 		}
 	}
@@ -233,7 +262,7 @@ func TestC11(t *testing.T) {
 
 	// "ab" and "a+b" show the same text with a different split into runs
 	texts3 := []string{"a", "b", "a|b"}
-	textsR := []string{"a", "b", "a|b", "ab", "a+b", "a|+b", "a|", "|a"} // the last two: "a" with an empty line after or before it (another text than "a")
+	textsR := []string{"a", "b", "a|b", "ab", "a+b", "a|+b", "a|", "|a", " a", "a ", "a| b"} // "a|" and "|a": "a" with an empty line after or before it; " a", "a ", "a| b": padded with a blank (all other texts than "a" / "a|b")
 	// Exhaustive: every list (any order) of <=4 cues on the 0..N grid with 3 texts.
 	grid := func(name string, maxN int, max int64) {
 		sub(t, name, func(t *testing.T) {
